@@ -103,7 +103,7 @@ type c17MOp struct {
 	Clean   bool   `json:"clean"`
 	HoldUs  int64  `json:"hold_us"`
 	Pings   int    `json:"pings"`
-	End     string `json:"end"` // disconnect | half | close | reset | linger | abort-close | abort-reset
+	End     string `json:"end"` // disconnect | half | close | reset | linger | abort-reset
 	AbortUs int64  `json:"abort_us"`
 }
 
@@ -197,14 +197,20 @@ func c17GenMQTT(rng *sim.Rand, sc *c17Scenario) {
 		for k, n := 0, rng.Range(1, 4); k < n; k++ {
 			op := c17MOp{GapUs: dur(), HoldUs: dur(), Pings: rng.Pick(0, 0, 1, 2)}
 			op.ID = fmt.Sprintf("c%d", rng.Intn(pool))
-			op.Clean = rng.Bool(cleanP)
+			if rng.Bool(cleanP) {
+				// CleanSession only with an id that is used once (see header)
+				uniq++
+				op.ID = fmt.Sprintf("u%d", uniq)
+				op.Clean = true
+			}
 			switch x := rng.Float64(); {
 			case x < abortP:
 				// a client that goes away before it reads the CONNACK gets an id of its own
 				uniq++
 				op.ID = fmt.Sprintf("x%d", uniq)
-				op.End = rng.PickStr("abort-close", "abort-reset")
-				op.AbortUs = int64(rng.Pick(0, 0, 1, 10, 100))
+				op.Clean = false
+				op.End = "abort-reset"
+				op.AbortUs = int64(rng.Pick(0, 0, 1, 10, 100, 5000))
 			case x < abortP+0.30:
 				op.End = "linger"
 			case x < abortP+0.65:
@@ -271,6 +277,7 @@ type c17H struct {
 	clientClosing map[int]bool // the client has started to close / abort this connection
 	served        map[int]bool // client view: got >= 1 response, not yet closing
 	teardown      bool
+	silent        bool
 
 	doubleClose int
 	hist        []string
@@ -280,6 +287,11 @@ type c17H struct {
 }
 
 func (h *c17H) note(format string, a ...interface{}) {
+	if h.silent {
+		// final tear-down (simnet.Shutdown resets everything at once): the order
+		// in which the server's goroutines notice is not part of the history
+		return
+	}
 	s := fmt.Sprintf(format, a...)
 	h.r.Eventf("%s", s)
 	if len(h.hist) < 400 {
@@ -454,6 +466,24 @@ func c17Settle(r *sim.Run, d time.Duration, cond func() bool) bool {
 	return cond()
 }
 
+// c17Dial dials from a short-lived task with a name of its own: the scheduler
+// names a connection's delivery goroutines after the goroutine that dialled
+// plus an ordinal given at their first gate, and two connections dialled by
+// one task can reach their first gates at the same timer instant.
+func c17Dial(r *sim.Run, n *simnet.Net, name, addr string) (net.Conn, error) {
+	type res struct {
+		c   net.Conn
+		err error
+	}
+	ch := make(chan res, 1)
+	r.Go(name, func() {
+		c, err := n.Dial(stdcontext.Background(), "tcp", addr)
+		ch <- res{c, err}
+	})
+	x := <-ch
+	return x.c, x.err
+}
+
 func c17ExecHTTP(r *sim.Run, sc *c17Scenario) {
 	if sc.Cap < 1 || len(sc.HClients) == 0 {
 		return
@@ -527,7 +557,9 @@ func c17ExecHTTP(r *sim.Run, sc *c17Scenario) {
 			ll.SetMaxConnection(uint32(cap))
 			busy = false
 		}
-		shutdown = func() { srv.Close(); ll.Close() }
+		// not srv.Close(): it would run the listener's Close under net/http's
+		// own (real) mutex; the connections are torn down by simnet.Shutdown
+		shutdown = func() { ll.Close() }
 	}
 	r.SetInvariant(h.quiescent)
 
@@ -553,12 +585,12 @@ func c17ExecHTTP(r *sim.Run, sc *c17Scenario) {
 		ci := ci
 		conns := sc.HClients[ci].Conns
 		r.Go(fmt.Sprintf("hclient%02d", ci), func() {
-			for _, op := range conns {
+			for oi, op := range conns {
 				if r.Violated() || r.Aborted() {
 					return
 				}
 				r.Sleep(c17Us(op.GapUs))
-				conn, err := n.Dial(stdcontext.Background(), "tcp", "c17:10080")
+				conn, err := c17Dial(r, n, fmt.Sprintf("hdial%02d.%d", ci, oi), "c17:10080")
 				if err != nil {
 					r.Violate("C17.http-established-dropped", "client %d could not even connect: %v", ci, err)
 					return
@@ -637,7 +669,7 @@ func c17ExecHTTP(r *sim.Run, sc *c17Scenario) {
 	// everything the clients opened is closed now: the last cap must come
 	// into force, and exactly that many fresh connections must be served
 	if !r.Violated() && !r.Aborted() {
-		ok := c17Settle(r, time.Millisecond, func() bool { return h.settled && h.nOpen == 0 })
+		ok := c17Settle(r, time.Second, func() bool { return h.settled && h.nOpen == 0 })
 		if !ok && !r.Violated() && !r.Aborted() {
 			if !h.settled {
 				r.Violate("C17.http-resize-not-applied", "all clients have gone but maxConnections=%d is still not in force (open=%d, reserved accept=%d)\nhistory: %s", h.lastCap, h.nOpen, h.acceptPending, h.history())
@@ -646,20 +678,22 @@ func c17ExecHTTP(r *sim.Run, sc *c17Scenario) {
 			}
 		}
 	}
+	heldBack := h.sawHeldBack
 	if !r.Violated() && !r.Aborted() {
 		want := h.lastCap
 		got := 0
 		var probes []net.Conn
 		for i := 0; i <= want; i++ {
-			i := i
-			conn, err := n.Dial(stdcontext.Background(), "tcp", "c17:10080")
-			if err != nil {
-				break
-			}
-			probes = append(probes, conn)
-			id := conn.(*simnet.Conn).ID
-			h.note("dial c%d probe", id)
+			// every probe dials from a task of its own: the delivery goroutines of
+			// a connection are named after the task that dialled
 			r.Go(fmt.Sprintf("probe%02d", i), func() {
+				conn, err := n.Dial(stdcontext.Background(), "tcp", "c17:10080")
+				if err != nil {
+					return
+				}
+				probes = append(probes, conn)
+				id := conn.(*simnet.Conn).ID
+				h.note("dial c%d probe", id)
 				conn.SetDeadline(time.Now().Add(c17Day))
 				if exchange(conn, bufio.NewReader(conn)) == nil {
 					got++
@@ -667,7 +701,7 @@ func c17ExecHTTP(r *sim.Run, sc *c17Scenario) {
 				}
 			})
 		}
-		ok := c17Settle(r, time.Millisecond, func() bool { return got >= want })
+		ok := c17Settle(r, time.Second, func() bool { return got >= want })
 		if !ok && !r.Violated() && !r.Aborted() {
 			r.Violate("C17.http-capacity-not-reused", "after all connections were closed only %d of maxConnections=%d fresh connections are served\nhistory: %s", got, want, h.history())
 		}
@@ -678,13 +712,14 @@ func c17ExecHTTP(r *sim.Run, sc *c17Scenario) {
 		r.WaitTasks()
 	}
 	h.teardown = true
+	h.silent = true
 	r.SetInvariant(nil)
 	shutdown()
 
 	if h.sawSaturated {
 		r.Probe("http.open_reached_cap")
 	}
-	if h.sawHeldBack {
+	if heldBack {
 		r.Probe("http.client_held_back_at_cap")
 	}
 	if h.sawShrinkBelow {
@@ -699,7 +734,7 @@ func c17ExecHTTP(r *sim.Run, sc *c17Scenario) {
 	if len(sc.Admin) >= 2 {
 		r.Probe("http.repeated_resize")
 	}
-	if h.sawHeldBack {
+	if heldBack {
 		r.Nontrivial()
 	}
 	r.SetSig(sc.Kind + "|" + h.sig.String())
@@ -850,7 +885,7 @@ func c17Drain(conn net.Conn) {
 // client-side rules. It returns nil when the connection is not established.
 func (m *c17M) connect(n *simnet.Net, op c17MOp, who string) *c17MC {
 	r := m.r
-	conn, err := n.Dial(stdcontext.Background(), "tcp", "c17:1883")
+	conn, err := c17Dial(r, n, "mdial-"+who, "c17:1883")
 	if err != nil {
 		r.Violate("C17.other", "%s: dial failed: %v", who, err)
 		return nil
@@ -1015,7 +1050,7 @@ func c17ExecMQTT(r *sim.Run, sc *c17Scenario) {
 					continue
 				}
 				r.Sleep(c17Us(op.GapUs))
-				c := m.connect(n, op, fmt.Sprintf("client %d op %d", ti, oi))
+				c := m.connect(n, op, fmt.Sprintf("c%02d.%d", ti, oi))
 				if c == nil {
 					continue
 				}
@@ -1065,8 +1100,14 @@ func c17ExecMQTT(r *sim.Run, sc *c17Scenario) {
 				m.end(c, "close")
 			}
 		}
+		// a CONNECT of a client that has already gone may still be on its way:
+		// let 25 s pass (more rounds than the scheduler has stall decisions)
+		// before looking at the broker's table
+		for i := 0; i < 25 && !r.Aborted(); i++ {
+			r.Sleep(time.Second)
+		}
 		empty := func() bool { return len(b.clients) == 0 }
-		if !c17Settle(r, 5*time.Millisecond, empty) && !r.Violated() && !r.Aborted() {
+		if !c17Settle(r, time.Second, empty) && !r.Violated() && !r.Aborted() {
 			left := m.brokerIDs()
 			allAborted := true
 			for _, id := range left {
@@ -1087,13 +1128,14 @@ func c17ExecMQTT(r *sim.Run, sc *c17Scenario) {
 			}
 		}
 	}
+	refused, full := m.sawRefused, m.sawFull
 	if !r.Violated() && !r.Aborted() {
 		// black-box confirmation: exactly cap fresh clients are admitted now
 		var fresh []*c17MC
 		for i := 0; i <= m.cap; i++ {
 			op := c17MOp{ID: fmt.Sprintf("z%d", i)}
 			before := len(m.conns)
-			c := m.connect(n, op, "final probe")
+			c := m.connect(n, op, fmt.Sprintf("final%d", i))
 			if r.Violated() || r.Aborted() {
 				break
 			}
@@ -1126,16 +1168,16 @@ func c17ExecMQTT(r *sim.Run, sc *c17Scenario) {
 	r.SetInvariant(nil)
 	b.close()
 
-	if m.sawRefused {
+	if refused {
 		r.Probe("mqtt.connect_refused_at_cap")
 	}
-	if m.sawFull {
+	if full {
 		r.Probe("mqtt.broker_reached_cap")
 	}
 	if m.sawTakeover {
 		r.Probe("mqtt.takeover_of_connected_id")
 	}
-	if m.sawRefused {
+	if refused {
 		r.Nontrivial()
 	}
 	r.SetSig("mqtt|" + m.sig.String())
